@@ -172,7 +172,7 @@ def run_verus(gen, workdir, rlimit=None, extra_args=(), timeout=3600, threads=No
     # assertion (it is then an ordinary assertion, which still fails for its function) and run again, so the
     # remaining obligations of the file are decided too.
     aborting = [f for f in res["failures"] if f["kind"] == "compute" and res["verified"] == 0 and f.get("gen_line")]
-    if aborting and _round < 24:
+    if aborting and _round < 5:
         lines = src_text.split("\n")
         changed = False
         for f in aborting:
@@ -184,6 +184,9 @@ def run_verus(gen, workdir, rlimit=None, extra_args=(), timeout=3600, threads=No
         if changed:
             return run_verus(gen, workdir, rlimit=rlimit, extra_args=extra_args, timeout=timeout, threads=threads, tag=tag,
                              _text="\n".join(lines), _carry=list(_carry) + aborting, _round=_round + 1)
+    if aborting and _round >= 5:
+        # enough definite failures recorded; the remaining obligations of this file are left undecided
+        res["undecided"].append({"reason": "compute-abort-rounds-exhausted", "detail": "more than 5 by(compute) assertions evaluate to false"})
     if _carry:
         items = {f["item"] for f in _carry}
         res["failures"] = list(_carry) + [f for f in res["failures"] if f["item"] not in items]
